@@ -22,6 +22,29 @@
  * next lock).  One scheduler step = one thread running from its yield point to its
  * next one, i.e. one critical-section segment.
  *
+ * That granularity is only sound for code that keeps the LOCK DISCIPLINE (every access to
+ * shared state, every cond_wait / signal / broadcast happens with the mutex held).  Two
+ * opt-in facilities make the discipline itself an observable instead of an assumption
+ * (both are inert unless the harness asks for them, so older users see no change):
+ *
+ *   FINE PRE-EMPTION POINTS.  A thread scheduled with SHIM_RUN_FINE (instead of SHIM_RUN)
+ *   additionally stops (state SHIM_T_FINE, always runnable) at
+ *     - the ENTRY of pthread_cond_wait, before the mutex is released and before the thread
+ *       is registered as a waiter (SHIM_F_PREWAIT; the mutex stays held by the stopped
+ *       thread: threads that need it block, threads that misbehave run),
+ *     - the entry of pthread_cond_broadcast / pthread_cond_signal (SHIM_F_PRESIGNAL),
+ *     - right after pthread_mutex_unlock released the mutex (SHIM_F_POSTUNLOCK).
+ *   A thread resumed with SHIM_RUN runs on to its next ordinary yield point.
+ *
+ *   LOCK-DISCIPLINE ORACLE (shim_guard_set).  The harness names the mutex, the condition
+ *   variables it guards and a snapshot function over the guarded state.  At every shim
+ *   operation of a thread (and at its exit) the snapshot is compared with the previous one:
+ *   only the running thread can have changed it, so a change of part 0 (mutex-protected
+ *   state) while that thread does not hold the mutex, a change of part 1 (state private to
+ *   thread 0) by another thread, or a signal / broadcast on a guarded condition variable
+ *   without the mutex is recorded (shim_guard_violation).  The guard ends when the guarded
+ *   mutex is destroyed (the state is about to be freed) or at shim_reset().
+ *
  * Thread ids: 0 = the client coroutine given to shim_run(); 1.. = threads in
  * pthread_create order.  pthread_create may be called before shim_run() (from the
  * plain program context): the threads are registered and start when first scheduled.
@@ -48,7 +71,15 @@ enum shim_tstate {
 	SHIM_T_WAIT,	/* in pthread_cond_wait, not signalled: blocked */
 	SHIM_T_WOKEN,	/* in pthread_cond_wait, signalled: runnable iff the mutex is free */
 	SHIM_T_JOIN,	/* in pthread_join: runnable iff the target exited */
-	SHIM_T_EXITED
+	SHIM_T_EXITED,
+	SHIM_T_FINE	/* stopped at a fine pre-emption point (see shim_fine_kind): always runnable */
+};
+
+enum shim_fine_kind {
+	SHIM_F_NONE = 0,
+	SHIM_F_PREWAIT = 1,	/* entry of cond_wait: mutex still held, not yet a waiter */
+	SHIM_F_PRESIGNAL = 2,	/* entry of cond_broadcast / cond_signal */
+	SHIM_F_POSTUNLOCK = 3	/* mutex_unlock done, before the thread's next instruction */
 };
 
 enum shim_result {
@@ -59,7 +90,8 @@ enum shim_result {
 	SHIM_STOPPED = 4	/* chooser asked to stop */
 };
 
-enum shim_choice_kind { SHIM_RUN = 0, SHIM_SPURIOUS = 1, SHIM_STOP = 2 };
+/* SHIM_RUN_FINE: like SHIM_RUN, but the thread also stops at its next fine pre-emption point */
+enum shim_choice_kind { SHIM_RUN = 0, SHIM_SPURIOUS = 1, SHIM_STOP = 2, SHIM_RUN_FINE = 3 };
 
 typedef struct {
 	int kind;	/* enum shim_choice_kind */
@@ -74,6 +106,8 @@ typedef struct {
 	int join_target[SHIM_MAX_THREADS];	/* for SHIM_T_JOIN */
 	int last;				/* thread that ran last, -1 at start */
 	long step;				/* number of choices made so far */
+	int fine_kind[SHIM_MAX_THREADS];	/* enum shim_fine_kind, for SHIM_T_FINE */
+	int holds[SHIM_MAX_THREADS];		/* number of mutexes the thread holds right now */
 } shim_view_t;
 
 typedef shim_choice_t (*shim_chooser_t)(const shim_view_t *view, void *ud);
@@ -95,7 +129,8 @@ int shim_self(void);		/* id of the running thread, -1 outside shim_run */
 void shim_get_view(shim_view_t *out);
 const char *shim_result_name(int r);
 
-/* explicit schedule: tokens "3" (run thread 3) or "s3" (spurious wake of thread 3),
+/* explicit schedule: tokens "3" (run thread 3), "3f" (run thread 3 up to its next fine
+ * pre-emption point, SHIM_RUN_FINE) or "s3" (spurious wake of thread 3),
  * separated by ',' or ' '.  When the list is exhausted: run the lowest runnable id
  * that equals view->last if possible (non-preemptive continuation). */
 typedef struct {
@@ -111,10 +146,27 @@ typedef struct {
 	unsigned long long s;
 	int spur_permille;
 	int spur_budget;
+	int fine_permille;	/* 0 after shim_random_chooser_init: no fine pre-emptions */
+	int fine_budget;
 } shim_random_chooser_t;
 void shim_random_chooser_init(shim_random_chooser_t *c, unsigned long long seed,
 			      int spur_permille, int spur_budget);
+/* with probability fine_permille/1000 (while fine_budget > 0) a thread is run with SHIM_RUN_FINE */
+void shim_random_chooser_set_fine(shim_random_chooser_t *c, int fine_permille, int fine_budget);
 shim_choice_t shim_random_chooser(const shim_view_t *view, void *ud);
+
+/* ---- lock-discipline oracle (opt-in) ----
+ * snap(ud, 0): hash of the state that may only change while the calling thread holds `mtx`;
+ * snap(ud, 1): hash of the state that only thread 0 (the client) may change, locked or not.
+ * conds[0..nconds-1]: condition variables that may only be signalled / broadcast with `mtx` held. */
+typedef unsigned long long (*shim_guard_fn)(void *ud, int part);
+void shim_guard_set(pthread_mutex_t *mtx, pthread_cond_t *const *conds, int nconds,
+		    shim_guard_fn snap, void *ud);
+void shim_guard_clear(void);
+/* NULL, or a description of the first violation since shim_guard_set (static buffer) */
+const char *shim_guard_violation(void);
+/* number of violations since shim_guard_set */
+int shim_guard_violation_count(void);
 
 int shim_pthread_create(pthread_t *t, const pthread_attr_t *a, void *(*fn)(void *), void *arg);
 int shim_pthread_join(pthread_t t, void **ret);
